@@ -21,7 +21,35 @@ def bump : Nat → Except Err Nat := fun s => .ok (s + 1)
 
 def handle (s : S) (i : Nat) (j : Json) : S × List Json :=
   match fStr? j "t" with
-  | some "c17.begin" => (s, [verdictOk i])
+  | some "c17.begin" =>
+    -- the first begin line lists what the running app registers: it must agree with the regenerated table
+    match fArr? j "registered" with
+    | none => (s, [verdictOk i])
+    | some regs =>
+      let parsed : List (String × String × Bool × String) := regs.toList.filterMap fun r =>
+        match r.getArr?.toOption.map (·.toList) with
+        | some [m, n, a, f] =>
+          match m.getStr?.toOption, n.getStr?.toOption, a.getBool?.toOption, f.getStr?.toOption with
+          | some m, some n, some a, some f => some (m, n, a, f)
+          | _, _, _, _ => none
+        | _ => none
+      if parsed.length != regs.size then (s, [verdictBad i "c17.begin registered"]) else
+      let vs : List Json :=
+        (parsed.filterMap fun (m, n, a, f) =>
+          match findHandler m n with
+          | none => some (verdictDiff i s!"{m}.{n}" "no handler in Gen.handlers" "registered with the app")
+          | some h =>
+            if h.hasAuthorityField != a then
+              some (verdictDiff i s!"{m}.{n} has an Authority field" h.hasAuthorityField a)
+            else if h.gated != (f != "") then
+              some (verdictDiff i s!"{m}.{n} governance-gated" h.gated (f != ""))
+            else if h.gated && h.authorityFieldName != f then
+              some (verdictDiff i s!"{m}.{n} gated through field" h.authorityFieldName f)
+            else none) ++
+        (Elys.Gen.handlers.filterMap fun h =>
+          if parsed.any (fun (m, n, _, _) => m == h.module && n == h.msgType) then none
+          else some (verdictDiff i s!"{h.module}.{h.msgType}" "handler in Gen.handlers" "not registered with the app"))
+      (s, if vs.isEmpty then [verdictOk i] else vs)
   | some "c17.uncovered" =>
     (s, [verdictBad i s!"uncovered: {(fStr? j "url").getD "?"}: {(fStr? j "why").getD ""}"])
   | some "c17.govrun" =>
